@@ -796,6 +796,18 @@ NextPin:
 			return fmt.Errorf("Error closing rowsPoints: %v", err)
 		}
 
+		// the node may already have children (it is being mirrored or
+		// re-attached), their hashes are part of the hash of the new edge
+		children, err := sdb.edges(tx, "SELECT * FROM edges WHERE up=?", nodeID)
+		if err != nil {
+			rollback()
+			return err
+		}
+
+		for _, c := range children {
+			hashUpdate ^= c.Hash
+		}
+
 		_, err = tx.Exec(`INSERT INTO edges(id, up, down, hash, type) VALUES (?, ?, ?, ?, ?)`,
 			edge.ID, edge.Up, edge.Down, 0, edge.Type)
 
@@ -828,7 +840,10 @@ NextPin:
 		}
 	}
 
-	err = sdb.updateHash(tx, nodeID, hashUpdate)
+	// edge points (and for a new edge the node points and child hashes) are
+	// part of the hash of this edge only, not of other edges that point to
+	// the same node. From the parent of this edge upwards, all edges change.
+	err = sdb.updateHashEdge(tx, edge, parentID, hashUpdate)
 	if err != nil {
 		rollback()
 		return fmt.Errorf("Error updating upstream hash: %v", err)
@@ -842,6 +857,8 @@ NextPin:
 	return nil
 }
 
+// updateHash applies hashUpdate to all edges that point to node id, and to
+// all edges upstream of them
 func (sdb *DbSqlite) updateHash(tx *sql.Tx, id string, hashUpdate uint32) error {
 	// key in edgeCache is up-down
 	cache := make(map[string]uint32)
@@ -850,6 +867,23 @@ func (sdb *DbSqlite) updateHash(tx *sql.Tx, id string, hashUpdate uint32) error 
 		return err
 	}
 
+	return sdb.writeHashCache(tx, cache)
+}
+
+// updateHashEdge applies hashUpdate to one edge, and to all edges upstream
+// of the parent of that edge
+func (sdb *DbSqlite) updateHashEdge(tx *sql.Tx, edge data.Edge, parentID string, hashUpdate uint32) error {
+	cache := make(map[string]uint32)
+	cache[edge.ID] = edge.Hash ^ hashUpdate
+	err := sdb.updateHashHelper(tx, parentID, hashUpdate, cache)
+	if err != nil {
+		return err
+	}
+
+	return sdb.writeHashCache(tx, cache)
+}
+
+func (sdb *DbSqlite) writeHashCache(tx *sql.Tx, cache map[string]uint32) error {
 	// write update hash values back to edges
 	stmt, err := tx.Prepare(`UPDATE edges SET hash = ? WHERE id = ?`)
 
